@@ -273,7 +273,7 @@ def gen_firing_case(rng):
         'spec': spec,
         'targets': [f'T{i}' for i in range(nt)],
         'start': None,  # absolute instant, filled in by the shard loop (the shared clock only moves forward)
-        'start_skip': rng.randrange(0, 40 * 86400) + rng.choice([0, 0, 0.1, 0.25, 0.4, 0.499, 0.5, 0.75, 0.9]),  # timers are armed with round(): wake-ups land before or after the moment
+        'start_skip': rng.randrange(0, 500 * 86400) + rng.choice([0, 0, 0.1, 0.25, 0.4, 0.499, 0.5, 0.75, 0.9]),  # timers are armed with round(): wake-ups land before or after the moment
         'horizon_days': 100 if kind == 'dom' else 23,
         'reloads': rng.choice([0, 0, 1, 2]),
         'new_target_at': rng.choice([None, None, 0.3, 0.6]),
@@ -300,10 +300,11 @@ def run_firing_case(w, case, res):
     firings = []  # (tag, when, queued-by)
     info = {'occurrences_checked': 0, 'catchup': 0, 'boot_firings': 0}
     # position the clock (time only moves forward on the shared reactor)
+    # the history starts at this absolute instant (sub-second phase included: timers are armed with round())
     start = datetime.datetime.fromisoformat(case['start'])
-    if start < w.now():
-        raise RuntimeError('case start lies before the current virtual clock')
-    rx.advance((start - w.now()).total_seconds())
+    from ..world import EPOCH  # pylint: disable=import-outside-toplevel
+
+    w.start_at = (start - EPOCH).total_seconds()
     kind_of = aegen.Reference(case['spec']).kind
     import dawgie.db  # pylint: disable=import-outside-toplevel
     orig_defer = sch.defer
@@ -436,10 +437,12 @@ def run_firing_case(w, case, res):
                          f'(firings of the node: {[str(f[1]) for f in firings if f[0] == tag][:5]})', mech)
                     )
     finally:
+        w.start_at = 0.0
         sch.defer = orig_defer
         if sim is not None:
             sim.close()
     info['firings'] = len(firings)
+    info['started'] = str(t_start) if sim is not None else None
     return bad, info
 
 
@@ -449,8 +452,9 @@ def run_firing(spec, res):
     n = 0
     while keep_going(res, spec):
         case = gen_firing_case(rng)
-        day0 = w.now().replace(hour=0, minute=0, second=0, microsecond=0) + datetime.timedelta(days=1)
-        start = day0 + datetime.timedelta(seconds=case['start_skip'])
+        from ..world import EPOCH  # pylint: disable=import-outside-toplevel
+
+        start = EPOCH + datetime.timedelta(seconds=case['start_skip'])
         case['start'] = start.isoformat()
         for t in case['spec']['tasks']:
             for a in t['algs']:
